@@ -54,7 +54,7 @@ def run(ctx):
         ctx.missing("C02.R1", "unpacker", "no crate-local call whose result is stored in verified_claims")
     for (f, root) in unpack_calls:
         bb = root.d["bb"]
-        if f is new:
+        if f.name == new.name:
             if good and guarded(new, bb, good):
                 ctx.ok("C02.R1", new, "verify-before-unpack", "the claim-unpacking call %s is dominated by the signature check's success edge" % root.d["term"].get("resolved"), line=root.d["term"].get("line"))
             else:
@@ -187,7 +187,9 @@ def run(ctx):
         if v.kind == "call" and v.d["term"].get("name") in ("new", "default") and not v.kids:
             ctx.ok("C02.R4", f, "sd_jwt_payload-init", "empty initialiser", line=line)
             continue
-        if v.kind == "field" and v.d.get("name") == "claims" and common._outcome_root(peel_proj(v.kids[0])) in dec_nodes:
+        dec_sites = set((n.fn.name, n.d["bb"]) for n in dec_nodes)
+        root = common._outcome_root(peel_proj(v.kids[0])) if v.kids else None
+        if v.kind == "field" and v.d.get("name") == "claims" and root is not None and root.kind == "call" and (root.fn.name, root.d["bb"]) in dec_sites:
             nclaims += 1
             ctx.ok("C02.R4", f, "sd_jwt_payload-from-decode", "written from `.claims` of the signature-checked decode's Ok value", line=line)
             continue
